@@ -239,7 +239,14 @@ Fixpoint p_or (fuel : nat) (ts : list stok) : option (sexpr * list stok) :=
         | TId c :: r => Some (SCol c, r)
         | TStr s :: r => Some (SLit (VText s), r)
         | TNum d :: r => Some (SLit (VInt (num_val d)), r)
-        | TOp m :: TNum d :: r => if str_eqb m [45] then Some (SLit (VInt (- num_val d)), r) else None
+        | TOp m :: TNum d :: r =>
+            if str_eqb m [45] then Some (SLit (VInt (- num_val d)), r)
+            else if str_eqb m [40] then
+              match p_or n (TNum d :: r) with
+              | Some (e, t' :: r') => if is_op t' ")" then Some (e, r') else None
+              | _ => None
+              end
+            else None
         | TWord w :: r =>
             if str_eqb w (s2l "POSITION") then
               match r with
